@@ -46,12 +46,13 @@ theorem factor_exact_closed (o : Oracle σ) (hpp : UsesPerfectPower o) (hfs : Us
   factor_exact o (oracleOK_of_models o hpp hfs hqs hrho hpm1 hecm hres) fuel n alg os l h
 
 /-- **`factor_total_closed`**: `C03.factor_total` for oracles that are the models: selector
-precondition met and fuel `≥ bits n` ⟹ a list with product `n` or the declared failure; no
+precondition met and enough fuel (both on the trial-divided value) ⟹ a list with product `n` or the declared failure; no
 panic site of lib.rs, recursion depth `≤ bits n`. -/
 theorem factor_total_closed (o : Oracle σ) (hpp : UsesPerfectPower o) (hfs : UsesFinalStep o)
     (hqs : UsesQs64 o) (hrho : UsesRho64 o) (hpm1 : UsesPm1 o) (hecm : UsesEcmExits o)
     (hres : ResidualOK o) (fuel n : Nat) (alg : Algo) (os : σ)
-    (hsel : SelectorPre alg n) (hfuel : bits n ≤ fuel) :
+    (hsel : SelectorPre alg (trialDivideBy 1100 Ymq.Gen.Primality.smallPrimes n []).1)
+    (hfuel : bits (trialDivideBy 1100 Ymq.Gen.Primality.smallPrimes n []).1 ≤ fuel) :
     (∃ l, factor o fuel n alg os = .ok l ∧ l.prod = n) ∨ factor o fuel n alg os = .failure :=
   Ymq.C03.factor_total o (oracleOK_of_models o hpp hfs hqs hrho hpm1 hecm hres) fuel n alg os
     hsel hfuel
